@@ -25,6 +25,7 @@ def run(ctx):
                 'C++ parse_sentence (shim + pop hook) and through the Lean model; oracles: ' + ', '.join(sorted(ORACLES))
                 + '. non-trivial = distinct problems with at least one root derivation / returned tree')
     search_checks.suite(ctx, PID, ORACLES, GENS, ctx.budget(1200, 12000), max_n_enum=5)
+    search_checks.long_sentence_suite(ctx, [257] if not ctx.thorough else [257, 270, 300, 301])
     extra(ctx)
     import cli_common
     cli_common.cli_suite(ctx, ctx.budget(20, 200))      # the same through the command line itself
